@@ -297,6 +297,22 @@ func execDeb(vec J, out *Writer) {
 			rec["overlap"] = overlappingLoads(b.Bytes)
 		}
 		out.Put(rec)
+	case "debbytes":
+		// arbitrary bytes (fuzzer corpus) as a .deb: loaded three times under a watchdog
+		b := []byte(S(vec["bytes"]))
+		ids := []interface{}{}
+		hang := false
+		for i := 0; i < 3 && !hang; i++ {
+			done := make(chan string, 1)
+			go func() { _, id := loadOnce(b, nil); done <- id }()
+			select {
+			case id := <-done:
+				ids = append(ids, id)
+			case <-time.After(20 * time.Second):
+				hang = true
+			}
+		}
+		out.Put(J{"ev": "debraw", "in": vec, "len": len(b), "ids": ids, "hang": hang})
 	case "debraw":
 		// damaged .deb, described by a recipe (base package + one operation) so that vectors stay small;
 		// loaded several times under a watchdog
